@@ -25,6 +25,7 @@ type c15Case struct {
 	Policy       bool     `json:"policy"`        // an ACL policy is configured
 	AllowedAdmin []string `json:"allowed_admin"` // empty = unrestricted
 	Bypass       bool     `json:"bypass"`
+	IntraMarker  bool     `json:"intra_marker,omitempty"` // the caller also sets the intra-proxy marker headers
 	Transport    string   `json:"transport"` // "tcp" | "mux-server" | "mux-client"
 }
 
@@ -69,6 +70,11 @@ func c15Run(c c15Case) (denied, allowed int, err error) {
 		}
 		if c.Bypass {
 			md.Set("s2s-request-translation", "false")
+		}
+		if c.IntraMarker {
+			md.Set("x-s2s-intra-proxy", "1")
+			md.Set("x-s2s-origin-proxy-id", "node-x")
+			md.Set("x-s2s-hop-count", "1")
 		}
 		return md
 	}
@@ -152,7 +158,7 @@ func c15Fail(t interface{ Fatalf(string, ...any) }, st *vfshared.Stats, part str
 	t.Fatalf("C15 violated: %v (replay %s)", err, p)
 }
 
-const c15Rule = "configurations = (policy present?, admin allow-list drawn from the 45 AdminService methods incl. empty=unrestricted / singletons / random subsets / full set, translation-bypass header on/off, transport of the remote-facing server tcp / mux-server / mux-client) assembled by the real NewClusterConnection on loopback with a recording fake cluster on each side; every one of the 154 methods of both services (unary and streaming) is invoked by full name from the remote side and from the local side; oracle: refused <=> PermissionDenied and fake saw nothing; allowed <=> fake saw exactly that call once; local side never refused; non-trivial = configuration with a policy in which some methods are refused and some forwarded; distinct = distinct configurations; evaluations = method invocations"
+const c15Rule = "configurations = (policy present?, admin allow-list drawn from the 45 AdminService methods incl. empty=unrestricted / singletons / random subsets / full set, translation-bypass header on/off, intra-proxy marker headers on/off, transport of the remote-facing server tcp / mux-server / mux-client) assembled by the real NewClusterConnection on loopback with a recording fake cluster on each side; every one of the 154 methods of both services (unary and streaming) is invoked by full name from the remote side and from the local side; oracle: refused <=> PermissionDenied and fake saw nothing; allowed <=> fake saw exactly that call once; local side never refused; non-trivial = configuration with a policy in which some methods are refused and some forwarded; distinct = distinct configurations; evaluations = method invocations"
 
 func TestVF_C15_Wiring(t *testing.T) {
 	const part = "wiring"
@@ -170,6 +176,9 @@ func TestVF_C15_Wiring(t *testing.T) {
 		cl := []string{"transport_" + c.Transport}
 		if c.Bypass {
 			cl = append(cl, "bypass")
+		}
+		if c.IntraMarker {
+			cl = append(cl, "intra_proxy_marker")
 		}
 		if !c.Policy {
 			cl = append(cl, "no_policy")
@@ -201,6 +210,7 @@ func TestVF_C15_Wiring(t *testing.T) {
 		{Policy: true, AllowedAdmin: admin, Transport: "tcp"},
 		{Policy: true, AllowedAdmin: []string{"StreamWorkflowReplicationMessages"}, Transport: "tcp"},
 		{Policy: true, AllowedAdmin: []string{"DescribeCluster"}, Transport: "mux-server", Bypass: true},
+		{Policy: true, AllowedAdmin: []string{"DescribeCluster"}, Transport: "tcp", IntraMarker: true},
 		{Policy: true, AllowedAdmin: []string{"StreamWorkflowReplicationMessages", "AddOrUpdateRemoteCluster"}, Transport: "mux-client"},
 	}
 	for _, c := range fixed {
@@ -210,6 +220,7 @@ func TestVF_C15_Wiring(t *testing.T) {
 		c := c15Case{Policy: rapid.IntRange(0, 5).Draw(rt, "policy") > 0}
 		c.Transport = rapid.SampledFrom([]string{"tcp", "tcp", "mux-server", "mux-client"}).Draw(rt, "transport")
 		c.Bypass = rapid.Bool().Draw(rt, "bypass")
+		c.IntraMarker = rapid.IntRange(0, 2).Draw(rt, "intra") == 0
 		switch rapid.IntRange(0, 3).Draw(rt, "listKind") {
 		case 0:
 			c.AllowedAdmin = []string{rapid.SampledFrom(admin).Draw(rt, "single")}
